@@ -10,7 +10,7 @@ import S3V.Spec.Policy
   read gives the JSON back (`…Json_of_…`);
 * `fromJson?_of_grammar`: a document of the (string-valued) grammar is accepted, and re-encodes to
   `canon` of itself when no name repeats inside its maps;
-* `grammar_of_fromJson?`: an accepted document outside the (two remaining) `quirk` regions is in the
+* `grammar_of_fromJson?`: an accepted document outside the (one remaining) `quirk` region is in the
   grammar;
 * `violation_mono`: the string-valued grammar lies inside the published one.
 -/
@@ -902,7 +902,6 @@ theorem grammar_of_fromJson? (j : Json) (p : Policy) (h : fromJson? j = some p) 
         rw [hm] at hq2 ⊢
         simp at hq2
         simpa [exactlyOne] using grammar_of_statements w x hx hq2
-  | arr _ => simp [quirk] at hq
   | _ => simp [fromJson?] at h
 
 /-! ### the published grammar contains the string-valued one -/
